@@ -1,19 +1,22 @@
+import TracklibVerif.Model.ObsTime
 /-! Model of linear resampling: tracklib/algo/interpolation.py (`prepareTimeSampling`,
-`__resampleTemporal`, `__resampleSpatial`, the `resample` dispatcher for `ALGO_LINEAR`) and the
-front end `Track.resample` of tracklib/core/track.py.
+`__resampleTemporal`, `__resampleSpatial`, the `resample` dispatcher for `ALGO_LINEAR`, `sample`,
+`synchronize`), the front end `Track.resample` and the operators `//`, `**`, `*` of tracklib/core/track.py,
+`TrackCollection.resample` and `TrackCollection.__floordiv__` (`collection // ref`) of tracklib/core/track_collection.py.
 
 Scalar-polymorphic (core Lean only): the driver instantiates `α := Rat` (exact streams) and
 `α := Float`; the proofs use an ordered field. A fix is `(x, y, z, t)` with `t = timestamp.toAbsTime()`
-in seconds; stamping an output with `ObsTime.readUnixTime(t)` is the C03 model and is applied by the
-driver. `sqrt` (2D/3D leg lengths) and `trunc` (Python `int()`) are parameters.
+in seconds; stamping an output with `ObsTime.readUnixTime(t)` is the C03 model (`Model/ObsTime.lean`), composed
+here by `stampOf` / `stamps`. `sqrt` (2D/3D leg lengths), `trunc` (Python `int()`) and `ms` (`⌊1000·t⌋`) are
+parameters.
 
 Python exceptions are values of `Err`: `index` (IndexError from `T[running_id]` / `getObs`),
 `zerodiv` (ZeroDivisionError), `nonterm` (the `while 1` loop of `prepareTimeSampling` never ends
-when the step is not positive). -/
+when the step is not positive), `type` (TypeError: spatial resampling with a step that is not a number). -/
 namespace TV.Resample
 
 inductive Err where
-  | index | zerodiv | nonterm
+  | index | zerodiv | nonterm | type
   deriving DecidableEq, Repr
 
 structure Fix (α : Type) where
@@ -23,11 +26,15 @@ structure Fix (α : Type) where
   t : α
   deriving Repr, DecidableEq
 
-/-- the reference argument of temporal resampling: a number of seconds, or a list of instants
-(`[ObsTime]`, or the timestamps of a reference track — both are mapped through `toAbsTime`). -/
+/-- the `delta` / `reference` argument as `prepareTimeSampling` tells the forms apart (three `isinstance` tests):
+a number of seconds (`int` / `float`), a `list` of `ObsTime` (mapped through `toAbsTime`), a reference `Track`
+(the stamps of its observations, mapped through `toAbsTime`; nothing else of it is read), or anything else
+(a tuple, a numpy integer, …: no branch is taken). -/
 inductive Step (α : Type) where
   | number (δ : α)
   | instants (l : List α)
+  | track (Q : List (Fix α))
+  | other
 
 section
 variable {α : Type} [Add α] [Sub α] [Mul α] [Div α] [LT α] [LE α] [DecidableLT α] [DecidableLE α]
@@ -86,6 +93,8 @@ def prepareNumber (δ tfin : α) : Nat → α → Option (List α)
 def prepareTimes (trunc : α → Int) (step : Step α) (tini tfin : α) : Except Err (List α) :=
   match step with
   | .instants l => .ok l
+  | .track Q => .ok (Q.map (·.t))
+  | .other => .ok []
   | .number δ =>
     if 0 < δ then
       match prepareNumber δ tfin ((trunc ((tfin - tini) / δ)).toNat + 2) tini with
@@ -198,10 +207,31 @@ structure Request (α : Type) where
   npts : Option Nat
   factor : Nat
 
+/-- the module-level dispatcher `interpolation.resample(track, delta, algo=ALGO_LINEAR, mode)`: the new observation
+list and the table of analytical features. The dispatcher's last line `track.__analyticalFeaturesDico = {}` is
+outside the class `Track`, so the name is not mangled: it creates an unrelated attribute and the feature table is
+left AS IT WAS (the front end `Track.resample` is what empties it). In spatial mode a step that is not a number
+is a TypeError (`(sfin - sini) / ds`). Any other mode: nothing is resampled. -/
+def interpResample (sqrt : α → α) (trunc : α → Int) (P : List (Fix α)) (feat : List String)
+    (mode : Nat) (d : Step α) : Except Err (List (Fix α) × List String) :=
+  if mode = 1 then
+    match d with
+    | .number ds =>
+      match resampleSpatial sqrt trunc P ds with
+      | .error e => .error e
+      | .ok out => .ok (out, feat)
+    | _ => .error .type
+  else if mode = 2 then
+    match resampleTemporal trunc P d with
+    | .error e => .error e
+    | .ok out => .ok (out, feat)
+  else .ok (P, feat)
+
 /-- `Track.resample(delta, algo=ALGO_LINEAR, mode, npts, factor)`: returns the new observation list and
 the new table of analytical features (always empty). `g` is the guard constant `1 + 1e-8`.
-In spatial mode a list/track `delta` is a TypeError in Python: not modelled (`index` is returned). -/
-def resample (sqrt : α → α) (trunc : α → Int) (g : α) (P : List (Fix α)) (_feat : List String)
+`delta is None` (and only that: an empty list or an empty reference track is a request for no instant) selects
+the regular resampling with `npts` (default `len(track)·factor`) points. -/
+def resample (sqrt : α → α) (trunc : α → Int) (g : α) (P : List (Fix α)) (feat : List String)
     (rq : Request α) : Except Err (List (Fix α) × List String) :=
   let delta? : Except Err (Step α) :=
     match rq.delta with
@@ -220,18 +250,114 @@ def resample (sqrt : α → α) (trunc : α → Int) (g : α) (P : List (Fix α)
   | .error e => .error e
   | .ok d =>
     if P.isEmpty then .error .index       -- getSRID() reads the first observation
-    else if rq.mode = 1 then
-      match d with
-      | .number ds =>
-        match resampleSpatial sqrt trunc P ds with
-        | .error e => .error e
-        | .ok out => .ok (out, [])
-      | .instants _ => .error .index
-    else if rq.mode = 2 then
-      match resampleTemporal trunc P d with
+    else
+      match interpResample sqrt trunc P feat rq.mode d with
       | .error e => .error e
-      | .ok out => .ok (out, [])
-    else .ok (P, [])
+      | .ok (out, _) => .ok (out, [])
+
+/-! ### callers: operators of `Track`, `sample`, `synchronize`, `TrackCollection` -/
+
+/-- `track // ref` (`Track.__floordiv__`): a copy of the track resampled (temporal, linear) at the stamps of the
+reference track; the track itself is not modified. -/
+def floordiv (sqrt : α → α) (trunc : α → Int) (g : α) (P : List (Fix α)) (feat : List String)
+    (Q : List (Fix α)) : Except Err (List (Fix α) × List String) :=
+  resample sqrt trunc g P feat ⟨2, some (.track Q), none, 1⟩
+
+/-- `track ** n` (`Track.__pow__`): a copy resampled in temporal mode with `npts = n` -/
+def pow (sqrt : α → α) (trunc : α → Int) (g : α) (P : List (Fix α)) (feat : List String)
+    (n : Nat) : Except Err (List (Fix α) × List String) :=
+  resample sqrt trunc g P feat ⟨2, none, some n, 1⟩
+
+/-- `track * k` for a number `k` (`Track.__mul__`): a copy resampled with `factor = k` in the default (spatial) mode -/
+def mulNumber (sqrt : α → α) (trunc : α → Int) (g : α) (P : List (Fix α)) (feat : List String)
+    (k : Nat) : Except Err (List (Fix α) × List String) :=
+  resample sqrt trunc g P feat ⟨1, none, none, k⟩
+
+/-- `interpolation.sample(track, timestamp)`: `t2 = track.copy(); resample(t2, [timestamp], ALGO_LINEAR, MODE_TEMPORAL);
+return t2[0]` — IndexError when the instant is not in `(tini, tfin]` -/
+def sample (sqrt : α → α) (trunc : α → Int) (P : List (Fix α)) (t : α) : Except Err (Fix α) :=
+  match interpResample sqrt trunc P [] 2 (.instants [t]) with
+  | .error e => .error e
+  | .ok (o :: _, _) => .ok o
+  | .ok ([], _) => .error .index
+
+/-- Python's `max(a, b)`: `b` only when `b > a` -/
+def pmax (a b : α) : α := if a < b then b else a
+
+/-- insertion in a non-decreasing list, after the elements that are `≤ v` -/
+def insertAsc (v : α) : List α → List α
+  | [] => [v]
+  | w :: ws => if v < w then v :: w :: ws else w :: insertAsc v ws
+
+/-- `timestamps[np.argsort(timestamps)]` as a list of VALUES (the order of equal stamps is not observable) -/
+def sortAsc (l : List α) : List α := l.foldr insertAsc []
+
+/-- drop every element equal to `prev`, its predecessor -/
+def dedupFrom (prev : α) : List α → List α
+  | [] => []
+  | w :: ws => if w < prev ∨ prev < w then w :: dedupFrom w ws else dedupFrom w ws
+
+/-- `for i in range(len(sorted) - 2, 0, -1): if sorted[i + 1] == sorted[i]: del sorted[i + 1]`: the loop stops at
+`i = 1`, so the pair of positions 0, 1 is never tested (a duplicate there stays) -/
+def syncDedup : List α → List α
+  | a :: b :: rest => a :: b :: dedupFrom b rest
+  | l => l
+
+/-- the instants `synchronize` requests: stamps of both tracks strictly inside the common time range
+`(max of the first stamps, min of the last stamps)`, sorted, de-duplicated by the loop above -/
+def syncRequest (T1 T2 : List α) (tini tfin : α) : List α :=
+  syncDedup ((sortAsc (T1 ++ T2)).filter (fun t => decide (tini < t) && decide (t < tfin)))
+
+/-- `interpolation.synchronize(track1, track2)`: both tracks resampled (`Track.resample`, temporal, linear) at
+`syncRequest`; track1 first (when that raises, track2 is untouched). An empty track: IndexError (`getFirstObs`). -/
+def synchronize (sqrt : α → α) (trunc : α → Int) (g : α) (P1 P2 : List (Fix α)) (f1 f2 : List String) :
+    Except Err ((List (Fix α) × List String) × (List (Fix α) × List String)) :=
+  match P1.head?, P2.head?, P1.getLast?, P2.getLast? with
+  | some a1, some a2, some b1, some b2 =>
+    let req := syncRequest (P1.map (·.t)) (P2.map (·.t)) (pmax a1.t a2.t) (pmin b1.t b2.t)
+    match resample sqrt trunc g P1 f1 ⟨2, some (.instants req), none, 1⟩ with
+    | .error e => .error e
+    | .ok r1 =>
+      match resample sqrt trunc g P2 f2 ⟨2, some (.instants req), none, 1⟩ with
+      | .error e => .error e
+      | .ok r2 => .ok (r1, r2)
+  | _, _, _, _ => .error .index
+
+/-- `synchronize(track, track)` (the same object twice): the second resampling sees the result of the first -/
+def synchronizeSelf (sqrt : α → α) (trunc : α → Int) (g : α) (P : List (Fix α)) (f : List String) :
+    Except Err (List (Fix α) × List String) :=
+  match P.head?, P.getLast? with
+  | some a, some b =>
+    let req := syncRequest (P.map (·.t)) (P.map (·.t)) (pmax a.t a.t) (pmin b.t b.t)
+    match resample sqrt trunc g P f ⟨2, some (.instants req), none, 1⟩ with
+    | .error e => .error e
+    | .ok (P', f') => resample sqrt trunc g P' f' ⟨2, some (.instants req), none, 1⟩
+  | _, _ => .error .index
+
+/-- `TrackCollection.resample(delta, algo, mode)`: `for track in self: track.resample(delta, algo, mode)` -/
+def collResample (sqrt : α → α) (trunc : α → Int) (g : α) (tracks : List (List (Fix α) × List String))
+    (mode : Nat) (d : Step α) : Except Err (List (List (Fix α) × List String)) :=
+  tracks.mapM (fun tr => resample sqrt trunc g tr.1 tr.2 ⟨mode, some d, none, 1⟩)
+
+/-- `collection // ref` (`TrackCollection.__floordiv__`): `t.resample(track, mode=2)` on every track of a copy of the
+collection, in order (since the fix commit ea8666e; before it the mode was left to its spatial default and the call
+raised TypeError). The collection itself is not modified. -/
+def collFloordiv (sqrt : α → α) (trunc : α → Int) (g : α) (tracks : List (List (Fix α) × List String))
+    (Q : List (Fix α)) : Except Err (List (List (Fix α) × List String)) :=
+  tracks.mapM (fun tr => resample sqrt trunc g tr.1 tr.2 ⟨2, some (.track Q), none, 1⟩)
 
 end
+
+/-! ### stamping: `Obs(ENUCoords(X, Y, Z), ObsTime.readUnixTime(t))` -/
+
+/-- the stamp an output observation carries: `ObsTime.readUnixTime(t)` = the C03 model applied to `⌊1000·t⌋`
+(`ms`); `none` for an instant before 1970 (the calendar loops are not meant for it) -/
+def stampOf {α : Type} (ms : α → Int) (t : α) : Option TV.ObsTime.Stamp :=
+  let m := ms t
+  if m < 0 then none else some (TV.ObsTime.readUnixMs m.toNat)
+
+/-- the stamps of a resampled track -/
+def stamps {α : Type} (ms : α → Int) (out : List (Fix α)) : List (Option TV.ObsTime.Stamp) :=
+  out.map (fun p => stampOf ms p.t)
+
 end TV.Resample
